@@ -1,1 +1,50 @@
-fn main() { println!("{}", hashbrown::verif::GROUP_WIDTH); }
+mod arith;
+mod instr;
+mod mapdrv;
+
+use instr::*;
+
+fn main() {
+    let args: Vec<String> = std::env::args().collect();
+    if args.len() < 2 {
+        eprintln!("usage: hbx arith | hbx run <script> [plain|drop]");
+        std::process::exit(2);
+    }
+    // injected panics are part of the experiment: keep stderr quiet
+    std::panic::set_hook(Box::new(|_| {}));
+    match args[1].as_str() {
+        "arith" => arith::serve(),
+        "run" => {
+            let text = std::fs::read_to_string(&args[2]).expect("script");
+            // a file may hold several scripts separated by lines `=== <name>`
+            let mut scripts: Vec<(String, Vec<String>)> = Vec::new();
+            for l in text.lines() {
+                if let Some(name) = l.strip_prefix("=== ") {
+                    scripts.push((name.to_string(), Vec::new()));
+                } else {
+                    if scripts.is_empty() {
+                        scripts.push(("script".into(), Vec::new()));
+                    }
+                    scripts.last_mut().unwrap().1.push(l.to_string());
+                }
+            }
+            let mut out = String::new();
+            for (name, lines) in scripts {
+                reset_ctx();
+                let kind = lines
+                    .iter()
+                    .find_map(|l| l.strip_prefix("kind ").map(|s| s.trim().to_string()))
+                    .unwrap_or_else(|| args.get(3).cloned().unwrap_or("map-drop".into()));
+                let body: Vec<String> = lines.into_iter().filter(|l| !l.starts_with("kind ")).collect();
+                out.push_str(&format!("SCRIPT {} {}\n", name, kind));
+                match kind.as_str() {
+                    "map-drop" => mapdrv::run_map::<Kd, Vd>(&body, &mut out),
+                    "map-plain" => mapdrv::run_map::<Kp, Vp>(&body, &mut out),
+                    k => panic!("unknown kind {}", k),
+                }
+            }
+            print!("{}", out);
+        }
+        _ => std::process::exit(2),
+    }
+}
